@@ -269,7 +269,7 @@ func c15Puts(crd string, rules []c15Rule) []c15Query {
 }
 
 func runC15(r *Run) {
-	r.Rule = "search: rule graphs over <= 7 versions whose names contain each other (v1, v1beta1, v11 …), every endpoint spelled with or without the group, shapes = chain+fork, two-way chain, stem+fan (fork after >= 3 steps), diamonds, random density with cycles and self loops, duplicate rules in another spelling; every graph is queried several times in a random order on one stateful real ChainStorage (up to 3 fresh trials, the first one with a wrong-looking answer is reported); thorough adds every one of the 4096 rule graphs over 4 versions x all 12 (from,to) pairs. Application: a real ShellOperator (HookManager, conversionEventHandler, taskHandler, Hook.Run), the real conversion WebhookHandler (chi router, httptest) and bash hooks with a scripted outcome per run (exit 1, garbage, empty response, n objects, unconverted objects, desired version early, failedMessage, and answers whose objects differ: per object converted / at the desired version / left as it came / apiVersion removed / {} / null, the odd one first, in the middle or last, at the last or an earlier step); the declared rules are dealt to 1-3 hooks and, within a hook, to one binding or to 2-3 kubernetesCustomResourceConversion bindings for the same CRD (up/down style), so that a request may need rules of the first, a middle and the last binding of a hook. A search case is non-trivial when some query has a chain of >= 2 rules or a not-found answer on a non-empty graph; an application case when at least one hook ran. distinct = distinct op-line sequences."
+	r.Rule = "search: rule graphs over <= 7 versions whose names contain each other (v1, v1beta1, v11 …), every endpoint spelled with or without the group, shapes = chain+fork, two-way chain, stem+fan (fork after >= 3 steps), diamonds, random density with cycles and self loops, duplicate rules in another spelling; every graph is queried several times in a random order on one stateful real ChainStorage (up to 3 fresh trials, the first one with a wrong-looking answer is reported); thorough adds every one of the 4096 rule graphs over 4 versions x all 12 (from,to) pairs. Application: a real ShellOperator (HookManager, conversionEventHandler, taskHandler, Hook.Run), the real conversion WebhookHandler (chi router, httptest) and bash hooks with a scripted outcome per run (exit 1, garbage, empty response, n objects, unconverted objects, desired version early, failedMessage, and answers whose objects differ: per object converted / at the desired version / left as it came / apiVersion removed / {} / null, the odd one first, in the middle or last, at the last or an earlier step); the declared rules are dealt to 1-3 hooks and, within a hook, to one binding or to 2-3 kubernetesCustomResourceConversion bindings for the same CRD (up/down style), so that a request may need rules of the first, a middle and the last binding of a hook. Overlap cases: 2-3 ConversionReviews in flight on one operator at the same time (the same pair of versions = the same rules and links, the tail of the other's chain, or any other pair; each with its own uid, its own distinguishable objects and its own scripted outcomes; some hooks rate limited with settings.executionMinInterval), the order of their stages (sent and handled up to 'chain found, task and binding context of the step built' / that step's hook run and the next step built / ... / answered) a random merge forced with the yield point conversion.taskBuilt in conversionEventHandler; every hook run (which request's review it was handed, which objects) and every answer is checked against its own request. A search case is non-trivial when some query has a chain of >= 2 rules or a not-found answer on a non-empty graph; an application case when at least one hook ran. distinct = distinct op-line sequences."
 
 	// ---- corpus: the four repaired defects
 	r.One(0, func(c *Case, _ *Rng) {
@@ -340,6 +340,7 @@ func runC15(r *Run) {
 
 	// ---- application, end to end
 	c15E2ERandom(r)
+	c15E2EOverlap(r)
 
 	if r.Thorough() {
 		names := []string{"v1", "v1beta1", "v2", "v3"}
